@@ -241,6 +241,8 @@ def run_property(prop, tier='quick', seed=0, jobs=None, only=None):
   known_by_ob = {}
   for k in known:
     known_by_ob.setdefault(k['obligation'], []).append(k)
+    for extra in k.get('also_obligations', []):   # the same defect seen by a contract obligation too
+      known_by_ob.setdefault(extra, []).append(k)
 
   n_ob = n_dis = 0
   nb_ob = nb_dis = 0
